@@ -67,6 +67,8 @@ def run(chk):
                         chk.violation("codec-%s-%s-%s-%s" % (curve, j["prog"]["id"], row["kind"], row.get("cut", row.get("tok", row.get("val", "")))),
                                       {"curve": curve, "program": j["prog"], "test": {k: v for k, v in row.items() if k != "bad"}, "bad": bad},
                                       "; ".join(bad))
+    # (B1) the composed machine: table histories x byte-level adversary through System's prover and verifier (MC_Library)
+    vlib.library_mc(chk, probes=("NV_ShapeRejected",))
     # (B3) byte-level sessions on toy curves: what to_bytes emitted is the token stream Library!Tokens spells for the proof (field order,
     # counts, size law, k = log2 of the padded gate count), and from_bytes on honest, truncated, bit-flipped, overwritten, count-edited and
     # extended encodings returns what the decoder state machine returns, with the proof object the tokens stand for
